@@ -326,3 +326,152 @@ pub fn worker_walks(a: &WorkerArgs, fate: Fate, max_len: usize, extra: usize) ->
     acc.exhaustive = acc.violations.is_empty();
     acc
 }
+
+// ------------------------------------------------------------ C08 / C09
+
+use crate::shapes::{self, MemFailure, MemStats};
+
+pub fn hex(bytes: &[u8]) -> String {
+    bytes.iter().map(|b| format!("{:02x}", b)).collect()
+}
+
+pub fn unhex(s: &str) -> Option<Vec<u8>> {
+    if s.len() % 2 != 0 {
+        return None;
+    }
+    (0..s.len() / 2).map(|i| u8::from_str_radix(&s[2 * i..2 * i + 2], 16).ok()).collect()
+}
+
+pub fn mem_case_text(name: &str, bytes: &[u8]) -> String {
+    format!("memsize type={} bytes={}\n", name.replace(' ', ""), if bytes.is_empty() { "-".to_string() } else { hex(bytes) })
+}
+
+/// Runs one `memsize ...` / `memsize-big ...` line. Ok(description) or failures.
+pub fn run_mem_line(line: &str) -> Result<(String, Vec<MemFailure>), String> {
+    let t: Vec<&str> = line.split_whitespace().collect();
+    let get = |k: &str| t.iter().find_map(|x| x.strip_prefix(k));
+    match t.first().copied() {
+        Some("memsize") => {
+            let name = get("type=").ok_or("no type")?;
+            let bytes = match get("bytes=").ok_or("no bytes")? { "-" => vec![], h => unhex(h).ok_or("bad hex")? };
+            let menu = shapes::menu();
+            let r = menu.iter().find(|r| r.name().replace(' ', "") == name).ok_or_else(|| format!("unknown type {}", name))?;
+            let mut st = MemStats::default();
+            let fails = r.run(&bytes, &mut st);
+            Ok((format!("{} with {} bytes: {} checks", name, bytes.len(), st.checks), fails))
+        },
+        Some("memsize-big") => {
+            let kind = get("kind=").ok_or("no kind")?;
+            let count: usize = get("count=").ok_or("no count")?.parse().map_err(|_| "bad count")?;
+            match shapes::run_big(kind, count) {
+                Ok(d) => Ok((d, vec![])),
+                Err(e) => Ok((String::new(), vec![MemFailure { tags: vec!["C08"], sig: format!("big:{}", kind), msg: e }])),
+            }
+        },
+        _ => Err("not a memsize case".into()),
+    }
+}
+
+pub fn worker_mem(a: &WorkerArgs) -> Accum {
+    use proptest::prelude::*;
+    let menu = shapes::menu();
+    let n_types = menu.len();
+    let strategy = (0..n_types, proptest::collection::vec(any::<u8>(), 0..160));
+    let acc = RefCell::new(Accum::default());
+    let st = RefCell::new(MemStats::default());
+    let failed = RefCell::new(false);
+    let prop = a.prop;
+    let mut runner = TestRunner::new(pt_config(a.cases, derive_seed(a.seed, a.index, 8)));
+    let result = runner.run(&strategy, |(ti, bytes)| {
+        let r = &menu[ti];
+        write_current(a.out, &mem_case_text(&r.name(), &bytes));
+        let mut local = MemStats::default();
+        let fails = r.run(&bytes, &mut local);
+        let mine: Vec<&MemFailure> = fails.iter().filter(|f| f.tags.contains(&prop)).collect();
+        let unknown = mine.iter().find(|f| is_known(a.known, prop, &f.sig).is_none());
+        if let Some(f) = unknown {
+            *failed.borrow_mut() = true;
+            return Err(TestCaseError::fail(format!("[{}] {}", f.sig, f.msg)));
+        }
+        if !*failed.borrow() {
+            let mut acc = acc.borrow_mut();
+            acc.cases += 1;
+            acc.steps += local.checks;
+            if let Some(f) = mine.first() {
+                *acc.known.entry(f.sig.clone()).or_insert(0) += 1;
+            }
+            else if let Some(f) = fails.first() {
+                *acc.foreign.entry(format!("{}:{}", f.tags.join("+"), f.sig)).or_insert(0) += 1;
+            }
+            let nts = if prop == "C08" { &local.nontrivial8 } else { &local.nontrivial9 };
+            if !nts.is_empty() {
+                acc.nt_cases += 1;
+            }
+            let new = nts.iter().any(|s| !acc.nt.contains(s));
+            for s in nts { acc.nt.insert(s.clone()); }
+            if acc.samples.is_empty() || (new && acc.samples.len() < 6) {
+                acc.samples.push(mem_case_text(&r.name(), &bytes).trim().to_string());
+            }
+            *acc.events.entry(format!("type.{}", r.name())).or_insert(0) += 1;
+            st.borrow_mut().discarded += local.discarded;
+        }
+        Ok(())
+    });
+    let mut acc = acc.into_inner();
+    acc.skipped = st.borrow().discarded;
+    match result {
+        Ok(()) => { },
+        Err(TestError::Fail(_, (ti, bytes))) => {
+            let r = &menu[ti];
+            let mut local = MemStats::default();
+            let fails = r.run(&bytes, &mut local);
+            let f = fails.iter().find(|f| f.tags.contains(&prop));
+            acc.violations.push(Violation {
+                replay_text: format!("# replay for property {}\n# {}\n{}", prop,
+                    f.map(|f| format!("[{}] {}", f.sig, f.msg)).unwrap_or_default(), mem_case_text(&r.name(), &bytes)),
+                msg: f.map(|f| f.msg.clone()).unwrap_or_default(),
+                sig: f.map(|f| f.sig.clone()).unwrap_or_default(),
+            });
+        },
+        Err(TestError::Abort(r)) => acc.notes.push(format!("proptest aborted: {}", r)),
+    }
+    acc
+}
+
+/// Totality: large element counts on a 2 MiB stack. One kind per worker
+/// round; a stack overflow kills this process and is observed by the parent.
+pub fn worker_mem_big(a: &WorkerArgs) -> Accum {
+    let mut acc = Accum::default();
+    let kinds = shapes::big_kinds();
+    let counts: &[usize] = &[40_000, 2_000_000];
+    let mut n = 0u64;
+    for kind in &kinds {
+        for &count in counts {
+            n += 1;
+            if n % a.nworkers != a.index {
+                continue;
+            }
+            let line = format!("memsize-big kind={} count={}\n", kind, count);
+            write_current(a.out, &line);
+            acc.cases += 1;
+            match shapes::run_big(kind, count) {
+                Ok(d) => {
+                    acc.steps += 1;
+                    acc.nt.insert(format!("big|{}|{}", kind, count));
+                    acc.nt_cases += 1;
+                    if acc.samples.len() < 2 { acc.samples.push(d); }
+                },
+                Err(e) => {
+                    let sig = format!("big:{}", kind);
+                    if is_known(a.known, a.prop, &sig).is_some() {
+                        *acc.known.entry(sig).or_insert(0) += 1;
+                    }
+                    else {
+                        acc.violations.push(Violation { replay_text: format!("# replay for property {}\n# {}\n{}", a.prop, e, line), msg: e, sig });
+                    }
+                },
+            }
+        }
+    }
+    acc
+}
